@@ -44,7 +44,16 @@ def lib_state(d):
 def check_parse(ctx, L, rng, toks=None):
     if toks is None:
         toks = gen_code_list(rng, maxn=rng.choice([0, 1, 2, 3, 5, 8, 10]))
+    toks = list(toks)
+    empties = rng.random() < 0.1 and bool(toks)
     body = ';'.join(str(t) for t in toks)
+    if empties:
+        # an empty parameter stands for 0 (reset); only expressible in the string forms
+        k = rng.randint(0, len(toks))
+        parts_ = [str(t) for t in toks]
+        parts_.insert(k, '')
+        body = ';'.join(parts_)
+        toks.insert(k, 0)
     p = M.parse_params(body)
     if p.grey and p.grey != 'ext-colour-bad-selector':
         ctx.grey(p.grey)
@@ -54,8 +63,12 @@ def check_parse(ctx, L, rng, toks=None):
     # what vf/sgr_model.parse_params implements; it stays grey only for terminal-appearance claims (C02).
     ref = M.apply_ops(p.ops, {})
     form = rng.choice(['str', 'ints', 'strs', 'mixed', 'tuple-of-ints'])
+    if empties:
+        form = rng.choice(['str', 'strs'])
     if form == 'str':
         arg = body
+    elif form == 'strs' and empties:
+        arg = body.split(';')
     elif form == 'ints':
         arg = list(toks)
     elif form == 'strs':
